@@ -414,6 +414,11 @@ def pd_DataFrame(I, data=None, index=None, columns=None, **kw):
 
 def pd_concat(I, parts, **kw):
     parts = [p for p in parts]
+    if parts and isinstance(parts[0], Seg) and parts[0].kind == 'df':
+        acc = parts[0]
+        for p in parts[1:]:
+            acc = I.seg_append(acc, p)
+        return acc
     if any(isinstance(p, Havoc) for p in parts):
         return next(p for p in parts if isinstance(p, Havoc))
     parts = [p for p in parts if isinstance(p, DF)]
